@@ -22,7 +22,7 @@ import run_verus  # noqa: E402
 import run_kani  # noqa: E402
 from props import PROPS, UNIT_NOTES  # noqa: E402
 
-BUILD = os.path.join(VERIF, "build")
+BUILD = os.environ.get("VERIF_BUILD") or os.path.join(VERIF, "build")   # VERIF_BUILD: a private build directory (parallel self-tests)
 REPO = os.environ.get("VERIF_REPO", "/repo")
 
 TRUST_PATTERNS = [r"\bassume\s*\(", r"\badmit\s*\(", r"external_body", r"assume_specification", r"external_type_specification",
